@@ -182,6 +182,19 @@ def run(tier, logdir):
                                 "replayed": True, "replay_path": art, "wall_s": 0,
                                 "known": "C03-zombie-count-before-limiter" if (fname == "zombie_lines_count") else None})
         enc = ["multi::MultiState::draw", "state::BarState::draw"]
+        # printing and suspending are FORCED operations (a rate-limited println would drop or delay a log line, a rate-limited
+        # clear in suspend would let the suspended output be overwritten): the force-flag rules F1 of props/C04.py, restricted
+        # to the printing / suspending entry points
+        import props.C04 as C04
+        r4 = C04.run(tier, logdir)
+        for q in r4["queries"]:
+            if q["name"].startswith("F1 ") and re.search(r"println|suspend|clear", q["name"]):
+                q = dict(q)
+                q["name"] = "printing is forced: " + q["name"]
+                queries.append(q)
+            elif q["verdict"] == "BROKEN":
+                queries.append(q)
+        enc += ["state::BarState::println", "state::BarState::suspend", "multi::MultiState::println", "multi::MultiState::suspend", "multi::MultiState::clear"]
     except (M.Unsupported, KeyError, IndexError, AttributeError) as e:
         queries.append({"name": "MIR frame-condition analysis", "verdict": "BROKEN", "why": "%s: %s" % (type(e).__name__, e), "wall_s": 0})
         enc = []
@@ -190,6 +203,9 @@ def run(tier, logdir):
 
 def replay(path):
     d = json.load(open(path))
+    if "rule" in d:
+        import props.C04 as C04
+        return C04.replay(path)
     r = run("quick", None)
     hit = [q for q in r["queries"] if q["verdict"] == "FAIL" and d["field"] in q["name"]]
     if hit:
